@@ -341,6 +341,15 @@ def _rewrite_block(body: List[ast.stmt], in_function: bool, stats: Dict[str, int
             stats["ifexp"] += 1
             body[i] = new
             continue  # re-examine the new statement (else-after-return, nested conditional expressions)
+        if in_function and isinstance(st, ast.If) and not st.orelse and len(st.body) == 1 and isinstance(st.body[0], ast.If) and not st.body[0].orelse:
+            # `if a: if b: X`  ->  `if a and b: X`
+            inner = st.body[0]
+            vals = (st.test.values if isinstance(st.test, ast.BoolOp) and isinstance(st.test.op, ast.And) else [st.test]) + \
+                   (inner.test.values if isinstance(inner.test, ast.BoolOp) and isinstance(inner.test.op, ast.And) else [inner.test])
+            st.test = ast.copy_location(ast.BoolOp(op=ast.And(), values=vals), st.test)
+            st.body = inner.body
+            stats["mergeif"] += 1
+            continue
         if in_function and isinstance(st, ast.If) and st.orelse and not (len(st.orelse) == 1 and isinstance(st.orelse[0], ast.If)):
             from .canon import positive_test
             pos = positive_test(st.test)
@@ -467,7 +476,7 @@ def _walk(node: ast.AST, in_function: bool, stats: Dict[str, int], fn) -> None:
 
 
 def normalise_tree(tree: ast.Module) -> Dict[str, int]:
-    stats = {"docstring": 0, "logging": 0, "else": 0, "tempreturn": 0, "annotation": 0, "ifexp": 0, "loop2comp": 0, "setupdate": 0, "flip": 0, "anyall": 0, "sink": 0, "guard": 0, "yieldfrom": 0, "sinkcall": 0, "dictsplat": 0}
+    stats = {"docstring": 0, "logging": 0, "else": 0, "tempreturn": 0, "annotation": 0, "ifexp": 0, "loop2comp": 0, "setupdate": 0, "flip": 0, "anyall": 0, "sink": 0, "guard": 0, "yieldfrom": 0, "sinkcall": 0, "dictsplat": 0, "mergeif": 0}
     _walk(tree, False, stats, None)
     for n in ast.walk(tree):
         if isinstance(n, (ast.FunctionDef, ast.AsyncFunctionDef)):
